@@ -522,6 +522,26 @@ theorem orElse_eq (v : V α) : orElse v = .ok (Spec.absO v) := by
   unfold orElse hasValue deref getAt Spec.absO
   by_cases h : v.idx = 1 <;> simp [h]
 
+/-- optional::value_or on lvalues and rvalues with the construction of the returned object: which constructor of the
+    element makes the result (copy for `const&`, move for `&&`, move from the argument temporary when empty) and what
+    the moved-from optional holds afterwards (still engaged, the moved-from element) -/
+theorem valueOrCat_eq (el : Elem α) (mv : Bool) (v : V α) (d : α) :
+    (valueOrCat el mv v d).map (fun r => (r.1, Spec.absO r.2)) = .ok (Spec.valueOrCatO el mv (Spec.absO v) d) := by
+  unfold valueOrCat hasValue deref getAt Spec.valueOrCatO Spec.absO
+  by_cases h : v.idx = 1 <;> cases mv <;> simp [h]
+
+/-- optional::or_else on lvalues and rvalues, likewise -/
+theorem orElseCat_eq (el : Elem α) (mv : Bool) (v : V α) :
+    (orElseCat el mv v).map (fun r => (r.1, Spec.absO r.2)) = .ok (Spec.orElseCatO el mv (Spec.absO v)) := by
+  unfold orElseCat hasValue deref getAt Spec.orElseCatO Spec.absO
+  by_cases h : v.idx = 1 <;> cases mv <;> simp [h]
+
+/-- expected::value_or on lvalues and rvalues, likewise -/
+theorem expValueOrCat_eq (el : Elem α) (mv : Bool) (v : V α) (d : α) :
+    (expValueOrCat el mv v d).map (fun r => (r.1, Spec.absE r.2)) = .ok (Spec.valueOrCatE el mv (Spec.absE v) d) := by
+  unfold expValueOrCat expDeref expHas getAt Spec.valueOrCatE Spec.absE
+  by_cases h0 : v.idx = 0 <;> cases mv <;> simp [h0]
+
 /-- expected::value_or, for an object holding one of its two members -/
 theorem expValueOr_eq (v : V α) (d : α) (h : v.idx < 2) : expValueOr v d = .ok ((Spec.absE v).valueOr d) := by
   unfold expValueOr expDeref expHas getAt Spec.absE
